@@ -32,7 +32,36 @@ fn denorm(id: &str) -> String {
     id.to_string()
 }
 
+thread_local! {
+    static LAST_MATHML: std::cell::RefCell<String> = std::cell::RefCell::new(String::new());
+}
+
+/// id of the n-th (mod count) token element of the last MathML returned by set_mathml
+fn nth_leaf_id(n: usize) -> Option<String> {
+    LAST_MATHML.with(|m| {
+        let m = m.borrow();
+        let mut ids = vec![];
+        for tag in ["<mi ", "<mn ", "<mo ", "<mtext "] {
+            let mut from = 0;
+            while let Some(i) = m[from..].find(tag) {
+                let start = from + i;
+                let end = m[start..].find('>').map(|e| start + e).unwrap_or(m.len());
+                if let Some(j) = m[start..end].find(" id='") {
+                    let v = &m[start + j + 5..end];
+                    if let Some(k) = v.find('\'') {
+                        ids.push((start, v[..k].to_string()));
+                    }
+                }
+                from = end;
+            }
+        }
+        ids.sort();
+        if ids.is_empty() { None } else { Some(ids[n % ids.len()].1.clone()) }
+    })
+}
+
 fn remember_prefix(mathml: &str) {
+    LAST_MATHML.with(|m| *m.borrow_mut() = mathml.to_string());
     if let Some(i) = mathml.find("id='M") {
         let start = i + 4;
         if mathml.len() >= start + 9 && mathml.as_bytes()[start + 8] == b'-' {
@@ -47,6 +76,10 @@ pub fn dispatch(op: &[Value]) -> Result<Value, String> {
         "set_rules_dir" => set_rules_dir(s(op, 1)).map(|_| Value::Null).map_err(e2s),
         "set_mathml" => set_mathml(s(op, 1)).map(|m| { remember_prefix(&m); Value::String(m) }).map_err(e2s),
         "v_set_navigation_node_norm" => set_navigation_node(denorm(&s(op, 1)), n(op, 2)).map(|_| Value::Null).map_err(e2s),
+        "v_set_nav_nth_leaf" => match nth_leaf_id(n(op, 1)) {
+            Some(id) => set_navigation_node(id, n(op, 2)).map(|_| Value::Null).map_err(e2s),
+            None => Err("HARNESS: no leaf".to_string()),
+        },
         "v_get_braille_norm" => get_braille(denorm(&s(op, 1))).map(Value::String).map_err(e2s),
         "get_spoken_text" => get_spoken_text().map(Value::String).map_err(e2s),
         "get_overview_text" => get_overview_text().map(Value::String).map_err(e2s),
@@ -83,6 +116,7 @@ pub fn dispatch(op: &[Value]) -> Result<Value, String> {
             let (h, hi, un) = libmathcat::verif::braille::highlight_cell(char::from_u32(n(op, 1) as u32).unwrap_or(' '));
             Ok(json!([h, hi as u32, un as u32]))
         }
+        "v_add_ids_only" => libmathcat::verif::interface::add_ids_only(&s(op, 1)).map(Value::String).map_err(e2s),
         _ => Err(format!("HARNESS: unknown op '{}'", name)),
     }
 }
